@@ -485,6 +485,20 @@ def witnesses(res):
         j.close()
     finally:
         shutil.rmtree(d, ignore_errors=True)
+    # finding C02-F2: a float('nan') key is bound as SQL NULL: iteration hands it back as None (another type), and key-ordered
+    # iteration cannot page past / never reaches NULL keys (the Coq side: C03_iterkeys_null_key_refuted)
+    d = tempfile.mkdtemp(prefix='c02wit-')
+    try:
+        c = diskcache.Cache(d)
+        nan = float('nan')
+        c[nan] = 1
+        c[7] = 2
+        keys = list(c)
+        ik = list(c.iterkeys())
+        res.witnessed['nan_key_null'] = (len(c) == 2 and None in keys and sorted(map(repr, ik)) != sorted(map(repr, keys)))
+        c.close()
+    finally:
+        shutil.rmtree(d, ignore_errors=True)
 
 
 def run(ctx, big=False):
